@@ -1,5 +1,6 @@
 from __future__ import annotations
 
+import copy
 import copyreg
 import multiprocessing
 import multiprocessing.pool
@@ -112,15 +113,56 @@ except ImportError:
         raise exc
 
 
+def _rebuild_exception(cls, args, state):
+    """Rebuild an exception without calling its ``__init__``"""
+    exc = cls.__new__(cls)
+    exc.args = args
+    if state:
+        exc.__dict__.update(state)
+    return exc
+
+
+class _PortableException:
+    """Stand-in that unpickles to an exception of the original type
+
+    For exceptions that the default mechanism cannot carry to the parent
+    process: ``type(e)(*e.args)`` does not work (``__init__`` with another
+    signature), an attribute cannot be serialised, or ``__reduce__`` raises.
+    The parent gets an exception of the same type with the same ``args`` and
+    the attributes that can be serialised.
+    """
+
+    def __init__(self, exc, dumps):
+        def ok(v):
+            try:
+                dumps(v)
+            except Exception:
+                return False
+            return True
+
+        self.cls = type(exc)
+        # an argument that cannot be serialised is sent as its ``repr``
+        self.args = tuple(a if ok(a) else repr(a) for a in exc.args)
+        self.state = {k: v for k, v in getattr(exc, "__dict__", {}).items() if ok(v)}
+
+    def __reduce__(self):
+        return _rebuild_exception, (self.cls, self.args, self.state)
+
+
 def pack_exception(e, dumps):
     exc_type, exc_value, exc_traceback = sys.exc_info()
     tb = _pack_traceback(exc_traceback)
     try:
+        # unpickling in the parent process rebuilds the exception like this
+        copy.copy(e)
         result = dumps((e, tb))
-    except Exception as e:
-        exc_type, exc_value, exc_traceback = sys.exc_info()
-        tb = _pack_traceback(exc_traceback)
-        result = dumps((e, tb))
+    except Exception:
+        try:
+            result = dumps((_PortableException(e, dumps), tb))
+        except Exception as e:
+            exc_type, exc_value, exc_traceback = sys.exc_info()
+            tb = _pack_traceback(exc_traceback)
+            result = dumps((e, tb))
     return result
 
 
